@@ -569,6 +569,52 @@ def run_more_name_rules(chk, spec):
 				if a.ok != b.ok or (a.ok and (a.value.column_names() != b.value.column_names() or [list(c._underlying) for c in a.value.cols()] != [list(c._underlying) for c in b.value.cols()])):
 					chk.fail("a column asked for by name is the column the table holds under that name now", f"names/{label}/spelled-key-after-view-rename", f"{spec!r}: renamed table gives {short(a, 200)}, a table built with these names gives {short(b, 200)}")
 					return
+		elif what == "nested-apply-names":
+			# an apply function that itself calls aggregate / window (on this or another table) while the outer call is naming its outputs: the outer names are
+			# those the same request gets with a plain function
+			t = Table({"k": ["a", "b", "a"], "v": [1, 2, 3], "w": [4, 5, 6]})
+			other = Table({"k": [1, 1], "v": [2, 3]})
+			inner = {"aggregate-same-table": lambda: t.aggregate(over="k", sum_over="v"), "window-same-table": lambda: t.window(over="k", sum_over="v"), "aggregate-other-table": lambda: other.aggregate(over="k", sum_over="v", max_over="v"),
+				"window-other-table": lambda: other.window(over="k", count_over="v")}[spec["variant"]]
+			def nested(vals):
+				inner()
+				return len(vals)
+			for op in ("aggregate", "window"):
+				for req in (dict(over="k", sum_over="v", apply={"k": ("w", None), "v_sum": ("v", None)}), dict(over=["k"], sum_over=["v", "v"], max_over="w", apply={"w_max": ("w", None), "k2": ("v", None), "v_sum2": ("w", None)})):
+					a = call(lambda: getattr(t, op)(**dict(req, apply={nm: (c, nested) for nm, (c, _) in req["apply"].items()})))
+					b = call(lambda: getattr(t, op)(**dict(req, apply={nm: (c, len) for nm, (c, _) in req["apply"].items()})))
+					if a.ok and b.ok and a.value.column_names() != b.value.column_names():
+						chk.fail("aggregate and window name their outputs after the key names and <column>_<function>, made unique by numeric suffixes", f"names/{op}/output-names/nested-apply/{spec['variant']}",
+							f"{spec!r}: with an apply function that calls {spec['variant']}: {a.value.column_names()!r}; with a plain function: {b.value.column_names()!r}")
+						return
+		elif what == "empty-typed-arithmetic":
+			# a NAMED vector filtered down to zero rows still has its dtype: arithmetic and comparisons with it give unnamed results like any other
+			src = Vector([1, 2, 3], name="qty") if spec["variant"] != "float-column" else Table({"qty": [1.5, 2.5]})["qty"]
+			e = {"mask": lambda: src[src > 99], "slice": lambda: src[0:0], "float-column": lambda: src[[False, False]], "typed-ctor": lambda: Vector([], dtype=int, name="qty"), "sorted-empty": lambda: src[0:0].sort_by()}[spec["variant"]]()
+			if e.name != "qty":
+				chk.fail("masking and slicing keep a vector's name", f"names/empty-selection/name-lost/{spec['variant']}", f"{spec!r}: the empty selection is named {e.name!r}")
+				return
+			for label, f in (("v+1", lambda: e + 1), ("v*2", lambda: e * 2), ("10-v", lambda: 10 - e), ("v/2", lambda: e / 2), ("v==1", lambda: e == 1), ("v<1", lambda: e < 1), ("-v", lambda: -e), ("v+v", lambda: e + e), ("v+[]", lambda: e + []), ("v**2", lambda: e ** 2)):
+				o = call(f)
+				if o.ok and isinstance(o.value, Vector) and label != "-v" and o.value.name is not None:
+					chk.fail("binary arithmetic and comparisons between vectors give unnamed results", f"names/arithmetic-keeps-name/empty-typed-operand/{label}", f"{spec!r}: {label} on an empty <{e.schema()!r}> vector named 'qty' is named {o.value.name!r}")
+					return
+		elif what == "join-after-right-rename":
+			# join - rename a column of the right table (no cell written) - join again: the result carries the names the tables store NOW
+			L = Table({"k": [1, 2, 3], "a": [7, 8, 9]})
+			R = Table({"r": [1, 2], "x": [5, 6], "y": ["p", "q"]})
+			how = spec["variant"].split("/")[0]
+			fn = {"left": L.join, "inner": L.inner_join, "full": L.full_join}[how]
+			first = call(fn, R, "k", "r", expect="many_to_one")
+			ren = spec["variant"].split("/")[1]
+			call({"rename_column": lambda: R.rename_column("x", "price"), "rename_columns": lambda: R.rename_columns(["r", "x"], ["r", "price"]), "handle": lambda: setattr(R["x"], "name", "price"), "key-handle": lambda: setattr(R["r"], "name", "rk"),
+				"left-handle": lambda: setattr(L["a"], "name", "alpha")}[ren])
+			keyname = "rk" if ren == "key-handle" else "r"
+			second = call(fn, R, "k", keyname, expect="many_to_one")
+			if first.ok and second.ok:
+				exp = L.column_names() + R.column_names()
+				if second.value.column_names() != exp:
+					chk.fail("joined tables keep each source column's stored name in order", f"names/join/stale-after-rename/{how}/{ren}", f"{spec!r}: the second join names its columns {second.value.column_names()!r}; the tables now store {exp!r}")
 		elif what == "fillna-keeps-name":
 			v = {"int<-float": (Vector([1, None, 3], name="x"), 2.5), "int<-complex": (Vector([1, None], name="x"), 2j), "float<-complex": (Vector([1.5, None], name="x"), 1j), "date<-datetime": (Vector([date(2020, 1, 1), None], name="x"), datetime(2020, 1, 1, 5)),
 				"same-kind": (Vector([1, None], name="x"), 0), "column": (Table({"x": [1, None, 3]})["x"], 2.5)}[spec["variant"]]
@@ -637,7 +683,8 @@ def gen_agg_names_spec(rng):
 
 def run(chk):
 	for what, variants in (("fold-letters", ["strasse", "long-s", "fi", "capital-sharp-s", "dotless-i", "plain"]), ("selection-rename-local", ["t[:, name]", "t[:, j]", "t[name, :]", "t[0:3, name]", "t[:, (name,)]", "t[mask][name]"]),
-			("spelled-key-after-view-rename", ["untouched", "touched-first"]), ("fillna-keeps-name", ["int<-float", "int<-complex", "float<-complex", "date<-datetime", "same-kind", "column"])):
+			("spelled-key-after-view-rename", ["untouched", "touched-first"]), ("nested-apply-names", ["aggregate-same-table", "window-same-table", "aggregate-other-table", "window-other-table"]), ("empty-typed-arithmetic", ["mask", "slice", "float-column", "typed-ctor", "sorted-empty"]),
+			("join-after-right-rename", [f"{h}/{r}" for h in ("left", "inner", "full") for r in ("rename_column", "rename_columns", "handle", "key-handle", "left-handle")]), ("fillna-keeps-name", ["int<-float", "int<-complex", "float<-complex", "date<-datetime", "same-kind", "column"])):
 		for variant in variants:
 			chk.case("more_name_rules", {"what": what, "variant": variant}, "more-name-rules")
 	for op in ("aggregate", "window"):
